@@ -15,6 +15,9 @@ import (
 
 type c11Case struct {
 	X1, X2 []float64
+	// overrides of the exported limits MannWhitneyExactLimit / MannWhitneyTiesExactLimit
+	// for the duration of the case (0 = leave the default 50 / 25)
+	Limit, TiesLimit int
 }
 
 func c11close(a, b float64) bool {
@@ -64,7 +67,22 @@ func c11Check(c c11Case) (v vcase.Verdict) {
 	}
 	v.NonTrivial = true
 	twoU := refstat.TwoU(c.X1, c.X2)
-	exact := (!hasTies && n1 <= 50 && n2 <= 50) || (hasTies && n1 <= 25 && n2 <= 25)
+	lim, tlim := 50, 25
+	if MannWhitneyExactLimit != 50 || MannWhitneyTiesExactLimit != 25 {
+		v.Failf("VERIF-BROKEN: limits not at their defaults at case start")
+		return
+	}
+	if c.Limit > 0 || c.TiesLimit > 0 {
+		v.Label("limits_overridden")
+		defer func(a, b int) { MannWhitneyExactLimit, MannWhitneyTiesExactLimit = a, b }(MannWhitneyExactLimit, MannWhitneyTiesExactLimit)
+		if c.Limit > 0 {
+			lim, MannWhitneyExactLimit = c.Limit, c.Limit
+		}
+		if c.TiesLimit > 0 {
+			tlim, MannWhitneyTiesExactLimit = c.TiesLimit, c.TiesLimit
+		}
+	}
+	exact := (!hasTies && n1 <= lim && n2 <= lim) || (hasTies && n1 <= tlim && n2 <= tlim)
 	var dist refstat.Dist
 	if exact {
 		v.Label("exact_path")
@@ -81,12 +99,25 @@ func c11Check(c c11Case) (v vcase.Verdict) {
 	x1c := append([]float64(nil), c.X1...)
 	x2c := append([]float64(nil), c.X2...)
 	var pTwo float64
+	// every result is looked at again after all later calls: a result describes its
+	// own call for as long as the caller keeps it
+	var kept []*MannWhitneyUTestResult
+	var keptCopy []MannWhitneyUTestResult
+	defer func() {
+		for i, r := range kept {
+			if *r != keptCopy[i] {
+				v.Failf("result %d of MannWhitneyUTest(%v, %v) changed after later calls: was %+v, now %+v", i, c.X1, c.X2, keptCopy[i], *r)
+				return
+			}
+		}
+	}()
 	for _, alt := range []LocationHypothesis{LocationLess, LocationDiffers, LocationGreater} {
 		r, err := MannWhitneyUTest(c.X1, c.X2, alt)
 		if err != nil || r == nil {
 			v.Failf("MannWhitneyUTest(%v, %v, %d): error %v", c.X1, c.X2, alt, err)
 			return
 		}
+		kept, keptCopy = append(kept, r), append(keptCopy, *r)
 		if r.N1 != n1 || r.N2 != n2 || r.AltHypothesis != alt {
 			v.Failf("N1/N2/alt = %d/%d/%d, want %d/%d/%d", r.N1, r.N2, r.AltHypothesis, n1, n2, alt)
 			return
@@ -151,6 +182,7 @@ func c11Check(c c11Case) (v vcase.Verdict) {
 		v.Failf("swapped: %v", err)
 		return
 	}
+	kept, keptCopy = append(kept, r2), append(keptCopy, *r2)
 	if !c11close(r2.P, pTwo) && math.Abs(r2.P-pTwo) > 1e-12 {
 		if !(exact && hasTies && vcase.KnownListed("C11-a") && len(v.Known) > 0) {
 			// (a case already booked under C11-a is asymmetric by the same defect)
@@ -225,7 +257,7 @@ func TestC11Exhaustive(t *testing.T) {
 				if idx%nsh != shard {
 					continue
 				}
-				if !yield(c11Case{a, b}) {
+				if !yield(c11Case{X1: a, X2: b}) {
 					return
 				}
 			}
@@ -265,6 +297,11 @@ func c11Gen(t *rapid.T) c11Case {
 			}
 			return c
 		}
+	}
+	if vcase.OneIn(t, 10, "limits") {
+		// the limits are exported variables; a caller may move them
+		c.Limit = rapid.SampledFrom([]int{0, 3, 5, 10, 40, 60}).Draw(t, "limit")
+		c.TiesLimit = rapid.SampledFrom([]int{0, 3, 5, 10, 20, 27}).Draw(t, "tieslimit")
 	}
 	kind := rapid.IntRange(0, 5).Draw(t, "kind")
 	size := func(label string) int {
